@@ -1333,6 +1333,27 @@ func (t *State) processUnconfirmTxs(block *pb.InternalBlock, batch kvdb.Batch, n
 		}
 		seenInBlock[string(tx.Txid)] = true
 	}
+	// key versions the block's transactions supersede, and key versions cited by block transactions
+	// this node has not seen before (those have yet to be verified against the state)
+	supersededInBlock := map[string]bool{}
+	citedByUnseenInBlock := map[string]bool{}
+	for _, tx := range block.Transactions {
+		_, seen := unconfirmTxMap[string(tx.Txid)]
+		written := map[string]bool{}
+		for _, txOut := range tx.TxOutputsExt {
+			written[string(xmodel.MakeRawKey(txOut.Bucket, txOut.Key))] = true
+		}
+		for _, txInputExt := range tx.TxInputsExt {
+			bucketAndKey := string(xmodel.MakeRawKey(txInputExt.Bucket, txInputExt.Key))
+			citedVersion := bucketAndKey + "@" + xmodel.MakeVersion(txInputExt.RefTxid, txInputExt.RefOffset)
+			if written[bucketAndKey] {
+				supersededInBlock[citedVersion] = true
+			}
+			if !seen {
+				citedByUnseenInBlock[citedVersion] = true
+			}
+		}
+	}
 	undoDone := map[string]bool{}
 	unconfirmToConfirm := map[string]bool{}
 	for txid, unconfirmTx := range unconfirmTxMap {
@@ -1367,6 +1388,26 @@ func (t *State) processUnconfirmTxs(block *pb.InternalBlock, batch kvdb.Batch, n
 					continue
 				}
 				t.log.Warn("inputs version conflict", "key", bucketAndKey, "localVersion", localVersion, "remoteVersion", remoteVersion)
+				hasConflict = true
+				break
+			}
+		}
+		writtenByUnconfirmTx := map[string]bool{}
+		for _, txOut := range unconfirmTx.TxOutputsExt {
+			writtenByUnconfirmTx[string(xmodel.MakeRawKey(txOut.Bucket, txOut.Key))] = true
+		}
+		for _, txInputExt := range unconfirmTx.TxInputsExt {
+			bucketAndKey := string(xmodel.MakeRawKey(txInputExt.Bucket, txInputExt.Key))
+			citedVersion := bucketAndKey + "@" + xmodel.MakeVersion(txInputExt.RefTxid, txInputExt.RefOffset)
+			if supersededInBlock[citedVersion] {
+				// the version it read (or wanted to supersede itself) is gone once the block is applied
+				t.log.Warn("cited version superseded by block", "key", bucketAndKey, "txid", utils.F(unconfirmTx.Txid))
+				hasConflict = true
+				break
+			}
+			if writtenByUnconfirmTx[bucketAndKey] && citedByUnseenInBlock[citedVersion] {
+				// it superseded a version that a transaction of the block, new to this node, cites
+				t.log.Warn("superseded version cited by block", "key", bucketAndKey, "txid", utils.F(unconfirmTx.Txid))
 				hasConflict = true
 				break
 			}
